@@ -1,3 +1,4 @@
+import NitroVerif.Lemmas.UsageWidth
 import NitroVerif.Model.Usage
 import NitroVerif.Props.C17
 
@@ -187,5 +188,35 @@ theorem entry_words (e : Entry) :
 
 example : tokens (formatPadded 10 "aa bb\tcc  dd".toList 4 12) = ["aa".toList, "bb".toList, "cc".toList, "dd".toList] := by
   rw [formatPadded_words]; decide
+
+
+/-! ### the width clause -/
+
+/-- **No line exceeds the width unless a single unbreakable piece forces it** — `format_padded`:
+appended to a line that holds `col` characters, a text without line breaks none of whose
+blank-separated pieces is too long to ever fit behind the padding produces no line longer than
+`maxW`; the line it continues is left alone when it is already beyond the padding column. -/
+theorem width_format_padded (col : Nat) (text : Str) (leftPad maxW : Int) (h0 : 0 ≤ leftPad) (h1 : leftPad < maxW)
+    (hnl : '\n' ∉ text)
+    (hfit : ∀ w ∈ NitroVerif.Str.splitGo [' '] (by decide) text, (w.length : Int) + 1 ≤ maxW - leftPad) :
+    ∀ L ∈ lineLens col (formatPadded col text leftPad maxW), (L : Int) ≤ max (col : Int) maxW :=
+  formatPadded_width col text leftPad maxW h0 h1 hnl hfit
+
+/-- every entry of the option section whose left column is at most 80 wide (the complement is
+known finding U2) and whose description, environment hint and default have no piece longer than 39 -/
+theorem width_entry (e : Entry) (hl : '\n' ∉ entryLeft e) (hll : (entryLeft e).length ≤ 80)
+    (ht : '\n' ∉ entryText e)
+    (hfit : ∀ w ∈ NitroVerif.Str.splitGo [' '] (by decide) (entryText e), w.length + 1 ≤ 40) :
+    ∀ L ∈ lineLens 0 (formatEntry e), L ≤ 80 :=
+  entry_width e hl hll ht hfit
+
+/-- the synopsis, for application names shorter than 72 characters (the complement is known
+finding U3) -/
+theorem width_synopsis (d : UDecl) (t o m l : List Entry) (happ : '\n' ∉ d.app) (hlen : d.app.length < 72)
+    (hs : '\n' ∉ (synopsisText d t o m l).drop 1)
+    (hfit : ∀ w ∈ NitroVerif.Str.splitGo [' '] (by decide) ((synopsisText d t o m l).drop 1),
+      w.length + 1 + (8 + d.app.length) ≤ 80) :
+    ∀ L ∈ lineLens 0 (synopsisPara d t o m l), L ≤ 80 :=
+  synopsis_width d t o m l happ hlen hs hfit
 
 end NitroVerif.Props.C15
